@@ -658,6 +658,8 @@ macro_rules! mk_reader_e {
             (0, false) => wrap_r!($E, BufBitReader::<$E, _>::new(MemWordReader::new(bytes_to_words::<$W>($data))), $count),
             (0, true) => wrap_r!($E, BufBitReader::<$E, _>::new(MemWordReader::new_strict(bytes_to_words::<$W>($data))), $count),
             (2, _) => wrap_r!($E, BufBitReader::<$E, _>::new(MemWordWriterVec::new(bytes_to_words::<$W>($data))), $count),
+            // a byte stream whose length need not be a multiple of the word size (ragged tail)
+            (4, _) => wrap_r!($E, BufBitReader::<$E, _>::new(WordAdapter::<$W, _>::new(Cursor::new($data.to_vec()))), $count),
             _ => {
                 let bytes = words_to_bytes::<$W>(&bytes_to_words::<$W>($data));
                 wrap_r!($E, BufBitReader::<$E, _>::new(WordAdapter::<$W, _>::new(Cursor::new(bytes))), $count)
@@ -671,6 +673,7 @@ macro_rules! mk_ureader_e {
             (0, false) => wrap_r!($E, BitReader::<$E, _>::new(MemWordReader::new(bytes_to_words::<u64>($data))), $count),
             (0, true) => wrap_r!($E, BitReader::<$E, _>::new(MemWordReader::new_strict(bytes_to_words::<u64>($data))), $count),
             (2, _) => wrap_r!($E, BitReader::<$E, _>::new(MemWordWriterVec::new(bytes_to_words::<u64>($data))), $count),
+            (4, _) => wrap_r!($E, BitReader::<$E, _>::new(WordAdapter::<u64, _>::new(Cursor::new($data.to_vec()))), $count),
             _ => {
                 let bytes = words_to_bytes::<u64>(&bytes_to_words::<u64>($data));
                 wrap_r!($E, BitReader::<$E, _>::new(WordAdapter::<u64, _>::new(Cursor::new(bytes))), $count)
@@ -798,6 +801,10 @@ pub fn run_world(hdr: &Group, data: &Group, ops: &[Group]) -> Vec<Group> {
                 let mut v = vec![ST_OK];
                 v.append(&mut g);
                 out.push(v);
+            }
+            Ok(Err(())) if a(hdr, 11) != 0 => {
+                // header field 11 set: the caller goes on after an error (the objects are kept as they are)
+                out.push(vec![ST_ERR]);
             }
             Ok(Err(())) => {
                 out.push(vec![ST_ERR]);
